@@ -36,7 +36,7 @@ PLAN = {
         "pkg": ["vts", "vh"],
         "level": "model_checking",
         "parts": [part("mc_proto", "c05", q=4, t=16), part("mc_client", "c05", q=1, t=1)],
-        "assumptions": ["for a oneway request a continues-without-more reply attempt may return Ok or the mismatch error (nothing is written either way)"],
+        "assumptions": [],
     },
     "C06": {
         "pkg": ["vts", "vh"],
